@@ -40,7 +40,7 @@ theorem facts_surface :
     writeCellReject = ["(P0>=R.Size.Width)", "(P1>=R.Size.Height)"] ∧
     writeCellIndex = "((int(P1)*int(R.Size.Width))+int(P0))" ∧
     renderFacts = ["range R.Buffer", "L0:=(K/int(R.Size.Width))", "L1:=(K%int(R.Size.Width))", "P0.SetCell(L1,L0,E)",
-      "sort.Slice R.Children", "less (R.Children[K].ZIndex<R.Children[L2].ZIndex)", "range R.Children",
+      "sort.Slice R.Children", "less (R.Children[L2].ZIndex>R.Children[K].ZIndex)", "range R.Children",
       "L3:=P0.New(int(E.Origin.Col),int(E.Origin.Row),int(E.Surface.Size.Width),int(E.Surface.Size.Height))",
       "E.Surface.render(L3,P1)"] ∧
     centerFacts = ["panic if (P0.Max.HasUnboundedHeight()||P0.Max.HasUnboundedWidth())", "child ctx Max:P0.Max",
